@@ -801,7 +801,9 @@ static void c06_enc_gen(Rng &rng, Plan &plan, bool thorough)
 		if (kind == EK_STREAM_MT) gen_mt_opts(rng, plan, (size_t)plan.p("in_len"));
 	}
 	gen_history(rng, plan, (size_t)plan.p("in_len"), sync_ok, full_ok, false);
-	if (tiny) for (auto &op : plan.ops) if (op.has("in_each")) op.set("in_each", rng.chance(300) ? 1 : 1 + (int64_t)rng.below(64));
+	// (threaded encoder: every call costs scheduler steps; keep the number of calls within the step budgets)
+	int64_t min_each = kind == EK_STREAM_MT ? plan.p("in_len") / 8000 + 1 : 1;
+	if (tiny) for (auto &op : plan.ops) if (op.has("in_each")) op.set("in_each", std::max<int64_t>(min_each, rng.chance(300) ? 1 : 1 + (int64_t)rng.below(64)));
 }
 
 static void c01_enc_gen(Rng &rng, Plan &plan, bool thorough)
